@@ -6,6 +6,14 @@ import tempfile
 
 from . import tlc as T
 
+def _unquote(line):
+    """The verdict tuple is printed through ToString (one line whatever its length; PrintT alone wraps long tuples)."""
+    try:
+        return json.loads(line)
+    except ValueError:
+        return line
+
+
 _RE_J = re.compile(r'^<<"J", (\d+), "([^"]*)", \{([^}]*)\}, (TRUE|FALSE), (TRUE|FALSE), \{([^}]*)\}>>')
 
 
@@ -45,11 +53,11 @@ def _judge_ops(events, tag, timeout):
     cfg = T.cfg_text({"Nil": "Nil", "NonNode": "NonNode", "MaxStack": 12}, init="TInit", next_="TNext",
                      postcondition="Accepted", deadlock=False)
     stats = T.run_tlc("TraceOps", cfg, tag=tag, workers=1, env={"TRACE_FILE": path}, use_cache=False,
-                      keep_prefixes=('<<"J"',), timeout=timeout)
+                      keep_prefixes=('"<<\\"J',), timeout=timeout)
     T.require_ok(stats)
     verdicts = {}
     for line in T.read_lines(stats["lines_path"]):
-        m = _RE_J.match(line)
+        m = _RE_J.match(_unquote(line))
         if not m:
             raise T.MachineryError("unparsable judge line: " + line[:200])
         viol = set(x.strip().strip('"') for x in m.group(3).split(",") if x.strip())
@@ -80,11 +88,11 @@ def _run_judge(module, events, constants, tag, timeout):
             f.write(json.dumps(e) + "\n")
     cfg = T.cfg_text(constants, init="TInit", next_="TNext", postcondition="Accepted", deadlock=False)
     stats = T.run_tlc(module, cfg, tag=tag, workers=1, env={"TRACE_FILE": path}, use_cache=False,
-                      keep_prefixes=('<<"J"',), timeout=timeout)
+                      keep_prefixes=('"<<\\"J',), timeout=timeout)
     T.require_ok(stats)
     verdicts = {}
     for line in T.read_lines(stats["lines_path"]):
-        m = _RE_JQ.match(line)
+        m = _RE_JQ.match(_unquote(line))
         if not m:
             raise T.MachineryError("unparsable judge line: " + line[:200])
         verdicts[m.group(2)] = set(x.strip().strip('"') for x in m.group(3).split(",") if x.strip())
